@@ -12,7 +12,7 @@ import (
 
 func init() { scenarios["C17"] = scenarioC17 }
 
-var c17FaultKinds = []string{"truncate", "bitflip", "garbage", "empty", "nuls", "long-line", "huge-number", "negative-number", "non-hex", "missing-version", "doubled-version", "foreign-version", "directory", "dangling-symlink", "now-passes", "extra-fields", "only-comments", "crlf"}
+var c17FaultKinds = []string{"truncate", "bitflip", "garbage", "empty", "nuls", "long-line", "huge-number", "negative-number", "non-hex", "missing-version", "doubled-version", "foreign-version", "directory", "dangling-symlink", "now-passes", "extra-fields", "only-comments", "crlf", "dotless-version", "near-version", "empty-version"}
 
 // corrupt applies fault kind k to a valid file; returns nil content for the special (non-regular) kinds.
 func corrupt(kind string, valid []byte, r *RNG, arg int) []byte {
@@ -67,6 +67,25 @@ func corrupt(kind string, valid []byte, r *RNG, arg int) []byte {
 		}
 		out := append([]string{}, lines...)
 		out[dataStart] = l
+		return []byte(strings.Join(out, "\n"))
+	case "dotless-version", "near-version", "empty-version":
+		// other rapid versions, including ones whose version string looks unusual or almost like the current one
+		l := lines[dataStart]
+		i := strings.Index(l, "#")
+		if i < 0 {
+			return valid
+		}
+		ver := l[:i]
+		switch kind {
+		case "dotless-version":
+			ver = []string{"v1", "1", "v", "dev"}[arg%4]
+		case "near-version":
+			ver = []string{ver + "1", ver + "-rc1", ver + ".1", ver[:len(ver)-1] + "x", " " + ver + "0"}[arg%5]
+		default:
+			ver = ""
+		}
+		out := append([]string{}, lines...)
+		out[dataStart] = ver + l[i:]
 		return []byte(strings.Join(out, "\n"))
 	case "extra-fields":
 		out := append([]string{}, lines...)
@@ -188,16 +207,27 @@ func scenarioC17(rc *RunCtx) {
 	rc.Tracef("faults on durable state: %v (reference file %d bytes)", kinds, len(valid))
 	rc.Key = MixSeed(HashString(target.String()), HashString(strings.Join(kinds, ",")), fl.Seed, t.Out[len(t.Out)-1].Val, uint64(len(t.Out)))
 	rc.Nontriv = true
-	judgeC17(rc, withFiles, clean, nFiles)
+	allVer := true
+	for _, k := range kinds {
+		if !strings.HasSuffix(k, "-version") {
+			allVer = false
+		}
+	}
+	judgeC17(rc, withFiles, clean, nFiles, allVer)
 }
 
-func judgeC17(rc *RunCtx, a, clean *CheckRun, nFiles int) {
+func judgeC17(rc *RunCtx, a, clean *CheckRun, nFiles int, allVersionKinds bool) {
 	if a.W.Overrun || clean.W.Overrun {
 		return
 	}
 	// R1: never crashes
 	if a.W.Escaped != nil || a.BubblePanic != "" {
 		rc.V(viol("C17.R1", "check-crashed", "Check panicked with unusable fail files present: %s %s", a.W.EscapedStr, a.BubblePanic))
+		return
+	}
+	// files written by another rapid version are never replayed, whatever their test case would do now
+	if allVersionKinds && len(a.ByPhase("failfile")) > 0 {
+		rc.V(viol("C17.R2", "foreign-version-replayed", "a fail file written by another rapid version was replayed (%d fail-file invocations); TB log: %s", len(a.ByPhase("failfile")), oneLine(tbLogs(a), 300)))
 		return
 	}
 	// a corrupted file that decodes into a still failing (or rapid-rejected as failing) case is usable, not unusable
